@@ -4,7 +4,9 @@ R1: EventPipeline.tla (cloud stage wait group incremented before parking and dec
     model with the two waits swapped must be refuted.  R2: EventSched.tla configurations x stimulus schedules with the event fields
     Grammar!PLine assigns to each line.  S2: harness c19 (real DatagramParser -> CloudHandler -> TagHandler -> BackendHandler with
     recording backends that honour their context, the real /v2/event endpoint whose request context is cancelled on return, the real
-    forwarder to a scripted upstream; synctest).  R3: EventTrace.tla."""
+    forwarder to a scripted upstream; synctest).  R3: EventTrace.tla.
+Stage: C12's cache driver (an unanswered lookup is an undelivered event).  Schedules include backend send errors, datagram events in
+    forwarder mode, invalid UTF-8 tags, cache eviction and unasked refresh."""
 import json
 import os
 import vlib
